@@ -388,12 +388,15 @@ func (w *gwWorld) Exec(s gwStep) (map[string]any, bool) {
 
 // listVersions returns key -> entries (newest first as listed), following markers.
 func (w *gwWorld) listVersions(cl *s3c.Client, bucket string) (map[string][]gwVer, *s3c.Resp) {
+	return w.listVersionsPaged(cl, bucket, 0)
+}
+
+// listVersionsPaged lists with max-keys = n (0: unset), following the markers.
+func (w *gwWorld) listVersionsPaged(cl *s3c.Client, bucket string, n int) (map[string][]gwVer, *s3c.Resp) {
 	out := map[string][]gwVer{}
 	var q []s3c.KV
-	// page sizes rotate (none, 1, 2, 3): following the markers must yield every entry once
-	w.pageRot++
 	var mk []s3c.KV
-	if n := w.pageRot % 4; n > 0 {
+	if n > 0 {
 		mk = []s3c.KV{{K: "max-keys", V: fmt.Sprint(n)}}
 		q = mk
 	}
@@ -547,6 +550,38 @@ func (w *gwWorld) CompareState(p gwPost, symBuckets []string, symKeys []string) 
 				continue
 			}
 			real = st
+			// paging: following the markers with a small page size must yield exactly
+			// the entries of the unpaged listing, each once
+			w.pageRot++
+			n := 1 + w.pageRot%3
+			pg, pr := w.listVersionsPaged(cl, b, n)
+			if !pr.OK() {
+				ds = append(ds, gwDiff{"paged-list-versions", "ok", "error"})
+			} else {
+				for k, es := range st {
+					cnt := map[string]int{}
+					for _, e := range pg[k] {
+						cnt[e.Vid]++
+					}
+					for _, e := range es {
+						switch {
+						case cnt[e.Vid] == 0:
+							ds = append(ds, gwDiff{"paging-entry-lost", "once", "never"})
+						case cnt[e.Vid] > 1:
+							ds = append(ds, gwDiff{"paging-entry-repeated", "once", "many"})
+						}
+						delete(cnt, e.Vid)
+					}
+					for range cnt {
+						ds = append(ds, gwDiff{"paging-entry-invented", "never", "present"})
+					}
+				}
+				for k := range pg {
+					if _, ok := st[k]; !ok {
+						ds = append(ds, gwDiff{"paging-key-invented", "never", "present"})
+					}
+				}
+			}
 		}
 		for _, sk := range symKeys {
 			k := w.key(sk)
